@@ -216,3 +216,181 @@ def check_bilinear_layouts(idx: ProgramIndex, rep: Report, rule: str = "C07.P5")
             else:
                 rep.ok(rule, sample)
     return n
+
+
+# ------------------------------------------------------------------------------------------------ P8
+# classes whose matrix is a PRODUCT of all recorded arguments: the derivative with respect to one factor is a
+# function of every other factor (class -> reason)
+PRODUCT_STRUCTURED = {
+    "ConstantMulLinearOperator": "matrix = constant * base_linear_op",
+    "InterpolatedLinearOperator": "matrix = W(left_indices, left_values) K W(right_indices, right_values)^T",
+}
+
+
+def check_product_dependence(idx: ProgramIndex, rep: Report, rule: str = "C07.P8") -> int:
+    from ..deps import dependence, value_reads as reads
+
+    n = 0
+    for c in idx.operator_classes():
+        if c.name not in PRODUCT_STRUCTURED:
+            continue
+        fn = c.methods.get("_bilinear_derivative")
+        if fn is None:
+            continue
+        rec = ctor_record(idx, c)
+        lay = Layout(fn)
+        prim = attr_primaries(rec.init)
+        pos_items = [i for i in rec.items if i.kind in ("pos", "star")]
+        from ..deps import ReachingDefs
+
+        rd = ReachingDefs(fn, reads=reads)  # flow-sensitive value dependence: shapes / dtypes of a tensor are not its value
+        who = f"{c.name}._bilinear_derivative"
+
+        def attrs_of(item) -> List[str]:
+            try:
+                ip = primary(ast.parse(item.text.lstrip("*"), mode="eval").body)
+            except SyntaxError:
+                return []
+            return sorted(a for a, ps in prim.items() if ip in ps and not a.startswith("__"))
+
+        for r in [r for r in walk_body(fn) if isinstance(r, ast.Return) and r.value is not None]:
+            L = lay.of(r.value)
+            if L is None or len(L) != len(pos_items):
+                continue
+            for i, (kind, txt) in enumerate(L):
+                if kind != "T" or txt in ("None",) or attr_of_zero((kind, txt)) is not None:
+                    continue
+                try:
+                    e = ast.parse(txt, mode="eval").body
+                except SyntaxError:
+                    continue
+                rn = rd.node_of(r)
+                if rn is None:
+                    continue
+                closure = rd.closure(rn, reads(e))
+                missing = []
+                for j, item in enumerate(pos_items):
+                    if j == i:
+                        continue
+                    aj = attrs_of(item)
+                    if aj and not any(f"self.{a}" in closure or any(x.startswith(f"self.{a}.") for x in closure) for a in aj):
+                        missing.append((item.text, aj))
+                n += 1
+                sample = {"function": who, "gradient_slot": i, "expression": txt[:60], "of": pos_items[i].text,
+                          "depends_on_other_factors": [it.text for k, it in enumerate(pos_items) if k != i and (it.text, attrs_of(it)) not in missing]}
+                if missing:
+                    rep.bad(rule, Finding(PROP, rule, who, f"slot {i} ({pos_items[i].text}) independent of " + ", ".join(m[0] for m in missing),
+                                          f"{who}: the gradient returned for `{pos_items[i].text}` ({txt[:50]}) does not depend on "
+                                          f"{', '.join('self.' + '/'.join(m[1]) for m in missing)}, although {PRODUCT_STRUCTURED[c.name]} - the "
+                                          "derivative with respect to one factor is a function of every other factor. A wrong "
+                                          "(left/right) tensor was used; invisible whenever the two coincide in the tests",
+                                          fn.loc(r)), sample)
+                else:
+                    rep.ok(rule, sample)
+    return n
+
+
+# ------------------------------------------------------------------------------------------------ P7
+def check_default_alignment(idx: ProgramIndex, rep: Report, rule: str = "C07.P7") -> int:
+    """The autograd default: gradients come back aligned with the FILTERED list of differentiable arguments and must
+    be re-expanded to one entry per representation element, in order."""
+    from ..cfg import CFG
+    from ..deps import dependence
+
+    base = idx.operator_base()
+    fn = base.methods.get("_bilinear_derivative")
+    if fn is None:
+        return 0
+    who = f"{base.name}._bilinear_derivative"
+    grads, filtered_from = set(), None
+    assigns = {n.targets[0].id: n.value for n in walk_body(fn)
+               if isinstance(n, ast.Assign) and len(n.targets) == 1 and isinstance(n.targets[0], ast.Name)}
+    for name, v in assigns.items():
+        for x in ast.walk(v):
+            if isinstance(x, ast.Call) and dotted(x.func) == "torch.autograd.grad" and len(x.args) >= 2:
+                grads.add(name)
+                src = x.args[1]
+                if isinstance(src, ast.Name) and src.id in assigns:
+                    src = assigns[src.id]
+                if isinstance(src, (ast.ListComp, ast.GeneratorExp)) and src.generators[0].ifs and isinstance(src.generators[0].iter, ast.Name):
+                    filtered_from = src.generators[0].iter.id
+    if not grads:
+        rep.note(f"{who}: no torch.autograd.grad call found")
+        return 0
+    if filtered_from is None:
+        rep.ok(rule, {"function": who, "gradients_requested_for": "the full argument list (already aligned)"})
+        return 1
+    S = filtered_from
+    deps = dependence(fn)
+    derived = set(grads) | {k for k, v in deps.items() if v & grads}
+    changed = True
+    while changed:  # container mutators (append / extend / insert) define their receiver
+        changed = False
+        for x in walk_body(fn):
+            if (isinstance(x, ast.Call) and isinstance(x.func, ast.Attribute) and x.func.attr in ("append", "extend", "insert", "appendleft")
+                    and isinstance(x.func.value, ast.Name) and x.func.value.id not in derived
+                    and any(isinstance(y, ast.Name) and y.id in derived for a in x.args for y in ast.walk(a))):
+                derived.add(x.func.value.id)
+                derived |= {k for k, v in deps.items() if x.func.value.id in v}
+                changed = True
+    cfg = CFG(fn)
+    # lists re-aligned by a loop over S that appends exactly once per iteration on every path
+    aligned = set()
+    for loop in [x for x in walk_body(fn) if isinstance(x, ast.For)]:
+        if not (isinstance(loop.iter, ast.Name) and loop.iter.id == S):
+            continue
+        names = {x.func.value.id for x in ast.walk(loop) if isinstance(x, ast.Call) and isinstance(x.func, ast.Attribute)
+                 and x.func.attr == "append" and isinstance(x.func.value, ast.Name)}
+        for L in names:
+            counts = _appends_per_iteration(loop, L)
+            outside = [x for x in walk_body(fn) if isinstance(x, ast.Call) and isinstance(x.func, ast.Attribute)
+                       and x.func.attr in ("append", "extend", "insert") and isinstance(x.func.value, ast.Name)
+                       and x.func.value.id == L and not any(y is x for y in ast.walk(loop))]
+            if counts == {1} and not outside:
+                aligned.add(L)
+    n = 0
+    for r in [r for r in walk_body(fn) if isinstance(r, ast.Return) and r.value is not None]:
+        used = {x.id for x in ast.walk(r.value) if isinstance(x, ast.Name)}
+        if not (used & derived):
+            continue  # e.g. `return (None,) * len(args)`: no gradient at all
+        n += 1
+        v = r.value
+        inner = v.args[0] if (isinstance(v, ast.Call) and isinstance(v.func, ast.Name) and v.func.id in ("tuple", "list") and len(v.args) == 1) else v
+        ok = False
+        how = ""
+        if isinstance(inner, ast.Name) and inner.id in aligned:
+            ok, how = True, f"`{inner.id}` is filled by exactly one append per element of `{S}`"
+        elif isinstance(inner, (ast.GeneratorExp, ast.ListComp)) and len(inner.generators) == 1 and not inner.generators[0].ifs \
+                and isinstance(inner.generators[0].iter, ast.Name) and inner.generators[0].iter.id == S:
+            ok, how = True, f"comprehension over every element of `{S}`"
+        sample = {"function": who, "return": short(v, 70), "gradients_are_aligned_with": f"the filtered sub-list of `{S}`", "realigned_by": how}
+        if ok:
+            rep.ok(rule, sample)
+        else:
+            rep.bad(rule, Finding(PROP, rule, who, norm(v),
+                                  f"{who}: torch.autograd.grad returns one gradient per DIFFERENTIABLE element of `{S}`, but "
+                                  f"`{short(v, 60)}` is not rebuilt with one entry per element of `{S}` in order (a loop / "
+                                  "comprehension over it): when a non-differentiable argument precedes a differentiable one "
+                                  "every later gradient lands on the wrong tensor (same length, so PyTorch does not complain)",
+                                  fn.loc(r)), sample)
+    return n
+
+
+def _appends_per_iteration(loop: ast.For, L: str) -> set:
+    """Set of append counts over the paths through one iteration of the loop body (if/else only)."""
+    def count(body) -> set:
+        totals = {0}
+        for st in body:
+            if isinstance(st, ast.If):
+                a, b = count(st.body), count(st.orelse)
+                totals = {t + x for t in totals for x in (a | b)}
+            elif isinstance(st, (ast.For, ast.While, ast.Try, ast.With)):
+                inner = sum(1 for x in ast.walk(st) if isinstance(x, ast.Call) and isinstance(x.func, ast.Attribute)
+                            and x.func.attr == "append" and isinstance(x.func.value, ast.Name) and x.func.value.id == L)
+                totals = {t + (99 if inner else 0) for t in totals}
+            else:
+                k = sum(1 for x in ast.walk(st) if isinstance(x, ast.Call) and isinstance(x.func, ast.Attribute)
+                        and x.func.attr == "append" and isinstance(x.func.value, ast.Name) and x.func.value.id == L)
+                totals = {t + k for t in totals}
+        return totals
+    return count(loop.body)
